@@ -375,10 +375,11 @@ class IntegerSequence(SequenceBase):
                     self.p_start = (
                         self.p_stop - self.i_step * (reps - 1))
             else:
-                remainder = (int(self.p_context_stop - self.p_start) %
+                # count back from p_stop to the first point >= context start
+                remainder = (int(self.p_stop - self.p_context_start) %
                              int(self.i_step))
                 self.p_start = (
-                    self.p_context_start - IntegerInterval.from_integer(
+                    self.p_context_start + IntegerInterval.from_integer(
                         remainder)
                 )
 
@@ -392,7 +393,7 @@ class IntegerSequence(SequenceBase):
         if self.i_step and self.p_start < self.p_context_start:
             # start from first point >= context start
             remainder = (
-                int(self.p_context_start - self.p_start) % int(self.i_step))
+                int(self.p_start - self.p_context_start) % int(self.i_step))
             self.p_start = (
                 self.p_context_start + IntegerInterval.from_integer(
                     remainder)
@@ -405,8 +406,7 @@ class IntegerSequence(SequenceBase):
             remainder = (
                 int(self.p_context_stop - self.p_start) % int(self.i_step))
             self.p_stop = (
-                self.p_context_stop - self.i_step +
-                IntegerInterval.from_integer(remainder)
+                self.p_context_stop - IntegerInterval.from_integer(remainder)
             )
             # if i_step is None here, points will just be None (out of bounds)
 
